@@ -324,10 +324,16 @@ AppendFrag(cells) ==
   /\ last' = [op |-> "append"]
 DeleteRow(a) ==
   /\ a \notin del
-  /\ del' = del \cup {a}
-  \* a fragment without live rows leaves the table (its id is not reused)
-  /\ frags' = SelectSeq(frags, LAMBDA fr : \E o \in 1..Len(fr.cells) : <<fr.id, o - 1>> \notin del')
-  /\ UNCHANGED <<idx, cov, hasIdx, strs, nid>>
+  \* a fragment without live rows leaves the table (its id is not reused); what the state still
+  \* says about it (deleted addresses, index entries, coverage) can no longer be observed and is dropped
+  /\ LET d2 == del \cup {a}
+         keep == SelectSeq(frags, LAMBDA fr : \E o \in 1..Len(fr.cells) : <<fr.id, o - 1>> \notin d2)
+         ids == {keep[i].id : i \in DOMAIN keep}
+     IN /\ frags' = keep
+        /\ del' = {x \in d2 : x[1] \in ids}
+        /\ idx' = {e \in idx : e.fid \in ids}
+        /\ cov' = cov \cap ids
+  /\ UNCHANGED <<hasIdx, strs, nid>>
   /\ last' = [op |-> "delete"]
 Build(fp) ==
   /\ frags # <<>>
@@ -397,10 +403,14 @@ view == <<frags, del, idx, cov, hasIdx, strs, nid>>
 IndexedScanEqualsFullScan ==
   /\ (Mode = "zone" /\ frags # <<>>) => LET lr == LiveRows IN \A p \in MPreds : Result(lr, p) = Matches(lr, p)
   /\ (Mode = "ngram" /\ strs # <<>>) => \A q \in Strs(MaxStr) : NgScan(q) = NgMatches(strs, q)
-\* (the laws take a parameter and Laws mentions a variable so that TLC does not evaluate them eagerly as constants)
-Laws == (Mode = "laws" /\ steps = 0) =>
-          /\ (Kind # "text" => ZoneMapSound(MaxZone) /\ BloomSound(MaxZone) /\ PageStatsSound(MaxZone) /\ PageStatsWideningSound(MaxZone))
+\* (the laws take a parameter and Laws* mention a variable so that TLC does not evaluate them eagerly as constants)
+LawsC20 == (Mode = "laws" /\ steps = 0) =>
+          /\ (Kind # "text" => ZoneMapSound(MaxZone) /\ BloomSound(MaxZone))
           /\ (Kind = "text" => NgramSound(MaxStr) /\ NgramNullSound(MaxStr))
+LawsC29 == (Mode = "laws" /\ steps = 0 /\ Kind # "text") =>
+          /\ ZoneMapSound(MaxZone) /\ PageStatsSound(MaxZone)
+          /\ (K <= 3 => PageStatsWideningSound(MaxZone))
+Laws == LawsC20 /\ LawsC29
 TypeOK == /\ \A i \in DOMAIN frags : \A o \in DOMAIN frags[i].cells : frags[i].cells[o] \in Cells
           /\ \A e \in idx : e.lo <= e.hi
 
